@@ -1007,10 +1007,21 @@ impl RustRuleEngine {
                             Ok(evaluated) => evaluated,
                             Err(_) => {
                                 // If evaluation fails, try as simple variable lookup
+                                // A right-hand side that only names a field reads as null when
+                                // the field is missing, like a missing left-hand field
                                 facts
                                     .get_nested(expr)
                                     .or_else(|| facts.get(expr))
-                                    .unwrap_or(crate::types::Value::Expression(expr.clone()))
+                                    .unwrap_or_else(|| {
+                                        if expr
+                                            .chars()
+                                            .all(|c| c.is_alphanumeric() || c == '_' || c == '.')
+                                        {
+                                            crate::types::Value::Null
+                                        } else {
+                                            crate::types::Value::Expression(expr.clone())
+                                        }
+                                    })
                             }
                         }
                     }
